@@ -322,7 +322,7 @@ def sibling_dispatch(ctx):
         d = Decider(cmps={('rank', '<=', 1): small},
                     extra=lambda c, small=small: small if (c.op == 'cmp' and c.args[0] == '<=' and is_const(c.args[2], 1)) else None)
         ev = evaluator(m, decide=d, opaque={'_preconditioner_shape', 'split_sizes'})
-        ev.attr_hook = hook
+        ev.attr_hook = _with_ndim(hook)
         r = ev.run(fi)
         ctx.evaluations += 1
         labels[(meth, ty, small)] = _dispatch_label(meth, r)
@@ -355,7 +355,9 @@ def _dispatch_label(meth, r):
   if meth == 'shapes_for_preconditioners':
     # element of the result: map(shape, t[...])
     slices = [x for x in walk(r) if x.op == 'sub' and x.args[1].op == 'slice']
-    maps = [x for x in walk(r) if x.op == 'mapdom']
+    # the per-block shapes: map(shape, t[...]) or the comprehension [shape(d) for d in t[...]] (one value-graph form)
+    maps = [x for x in walk(r) if x.op in ('mapdom', 'compdom') and x.args and
+            (x.args[0].op == 'elem' or (x.args[0].op == 'sub' and x.args[0].args[0].op == 'elem'))]
     if not maps:
       return 'unknown:' + s[:60]
     dom = maps[0].args[0]
@@ -465,6 +467,18 @@ def merge_small_dims(ctx):
          'each completed group (and the last one) must be appended to the result', ctx.loc(fi), sample='resulting_shape.append(product)')
 
 
+def _with_ndim(hook):
+  """x.ndim of a value whose static shape the hook knows is len(x.shape)"""
+  def h(ev_, base, name):
+    if name == 'ndim':
+      s_ = hook(ev_, base, 'shape')
+      if s_ is not None and s_.op in ('tuple', 'list') and not any(e.op == 'star' for e in s_.args):
+        return const(len(s_.args))
+      return None
+    return hook(ev_, base, name)
+  return h
+
+
 # ------------------------------------------------------------------ S7
 def _chain_layout(t, leaf_layouts):
   """Interpret a reshape/transpose/expand_dims/squeeze chain."""
@@ -557,7 +571,7 @@ def blockify_inverse(ctx):
           return base.args[1][1]
       return None
     ev = evaluator(m)
-    ev.attr_hook = hook
+    ev.attr_hook = _with_ndim(hook)
     opts = T('rec', m.cls('tearfree.shampoo', 'Options').fq, (('block_size', const(B)),))
     meta = ev.run(fm, args={'options': opts, 'param_shape': T('tuple', *[const(v) for v in shp]), 'debug': const('case')})
     tb = ev.run(fb, args={'x': X, 'meta': meta})
